@@ -414,7 +414,7 @@ func init() {
 func c18Aliasing(c *Ctx, idx int) {
 	dir := c07Directed()
 	e2 := dir[idx%len(dir)]
-	e1 := []string{"@", "{label: label, nums: nums, strs: strs, recs: recs, nested: nested, objs: objs, big: big, bigbad: bigbad, bigstrs: bigstrs, bignums: bignums}", "merge(@, {extra: `1`})"}[idx/len(dir)]
+	e1 := []string{"@", "{label: label, nums: nums, strs: strs, recs: recs, nested: nested, objs: objs, big: big, bigbad: bigbad, bigstrs: bigstrs, bignums: bignums, huge: huge, hugebad: hugebad, mid: mid, midbad: midbad, eo: eo, eo2: eo2}", "merge(@, {extra: `1`})"}[idx/len(dir)]
 	d, _ := ref.FromJSON(c07DirectedDoc)
 	doc := ref.ToGo(d, ref.JSONNumber)
 	l1 := c.LibSearch(e1, doc)
